@@ -240,3 +240,64 @@ func Harness_C03_highly_compressible_content() {
 	vm.Assert("C03.compressible_restore_delivers_everything", len(sink.data) == l)
 	vm.Assert("C03.compressible_stream_is_short", v.Env.Tape.LastMember() != nil && v.Env.Tape.LastMember().Size < 64)
 }
+
+// Harness_C03_archive_level_round_trip: content stored through the archive interface (one batched Operations.Archive
+// call with a directory and a file, as `stfs operation archive` issues it) under every modelled configuration comes
+// back byte for byte through Operations.Restore and through File.Read, with the right size.
+func Harness_C03_archive_level_round_trip() {
+	pipes := config.PipeConfig{
+		Compression: []string{config.NoneKey, config.CompressionFormatGZipKey}[vm.Choice("compression", 2)],
+		Encryption:  []string{config.NoneKey, config.EncryptionFormatAgeKey}[vm.Choice("encryption", 2)],
+		Signature:   []string{config.NoneKey, config.SignatureFormatMinisignKey}[vm.Choice("signature", 2)], // (signing with OpenPGP is not modelled)
+	}
+	rc, wc := verifCrypto(pipes)
+	v := verifNewFSCrypto(pipes, rc, wc, false, true)
+	v.Env.Tape.Exists = false
+	_, ierr := v.FS.Initialize("/", os.ModePerm)
+	vm.Assert("C03.archive_level_initialize_ok", ierr == nil)
+	if ierr != nil {
+		return
+	}
+	l := vm.Concretize(vm.Int("len", 1, 3))
+	content := make([]byte, l)
+	for i := range content {
+		content[i] = vm.Byte("b", "uvw")
+	}
+	members := []config.FileConfig{
+		{GetFile: func() (io.ReadSeekCloser, error) { return &c01Src{}, nil }, Info: c01Info{name: "d", mode: os.ModeDir | 0o750}, Path: "/d"},
+		{GetFile: func() (io.ReadSeekCloser, error) { return &c01Src{data: content}, nil }, Info: c01Info{name: "f", size: int64(l), mode: 0o640}, Path: "/d/f"},
+	}
+	i := 0
+	_, aerr := v.Env.WriteOps.Archive(func() (config.FileConfig, error) {
+		if i >= len(members) {
+			return config.FileConfig{}, io.EOF
+		}
+		i++
+		return members[i-1], nil
+	}, config.CompressionLevelFastestKey, false, false)
+	vm.Assert("C03.archive_level_archive_ok", aerr == nil)
+	if aerr != nil {
+		return
+	}
+	st, serr := v.FS.Stat("/d/f")
+	vm.Assert("C03.archive_level_size_is_content_length", serr == nil && st.Size() == int64(l))
+	sink := &c03Sink{}
+	rerr := v.Env.ReadOps.Restore(
+		func(path string, mode fs.FileMode) (io.WriteCloser, error) { return sink, nil },
+		func(path string, mode fs.FileMode) error { return nil },
+		"/d/f", "/out", true,
+	)
+	vm.Assert("C03.archive_level_restore_ok", rerr == nil)
+	if rerr == nil {
+		vm.Assert("C03.archive_level_restore_bytes", string(sink.data) == string(content))
+	}
+	r, oerr := v.FS.Open("/d/f")
+	vm.Assert("C03.archive_level_open_ok", oerr == nil)
+	if oerr == nil {
+		buf := make([]byte, l+1)
+		n, rderr := r.Read(buf)
+		vm.Assert("C03.archive_level_read_back", (rderr == nil || rderr == io.EOF) && n == l && string(buf[:n]) == string(content))
+		r.Close()
+	}
+	vm.Assert("C03.archive_level_locks_free", v.Env.LocksFree())
+}
